@@ -26,6 +26,9 @@ var unmarshalMap sync.Map // in-memory cache of the mapping of Go types to Messa
 
 // MsgType accepts a protobuf message and returns the corresponding MessageType value.
 func MsgType(msg interface{}) MessageType {
+	if msg == nil {
+		return MessageTypeUnknown
+	}
 	typ := reflect.TypeOf(msg)
 	val, found := unmarshalMap.Load(typ)
 	if found {
